@@ -53,6 +53,19 @@ def cases(draw, tier):
     alg = g.pick(ALGS)
     trait = "pd" if alg in ("Cholesky", "CG") else g.pick(["inv", "inv", "pd", "unitary"])
     tree = g.sq(n, trait, depth)
+    if g.integer(1, 12) == 1:
+        # operators within 1e-6 of the identity / of a unit-diagonal triangular matrix (nothing is "close enough" to a
+        # special case): Triangular with diagonal 1 + O(1e-6), or I + 1e-6 S declared PSD
+        dt = g.pick(["f8", "c16"])
+        off = g.array((n, n), dt, -2, 2)
+        dg = 1.0 + 1e-6 * g.ints(n, -3, 3)
+        if trait == "pd":
+            S = off @ off.conj().T
+            tree = {"k": "ann", "a": "PSD", "ch": [g._dense_like(np.eye(n) + 1e-6 * S, dt)]}
+        else:
+            lower = g.boolean()
+            T = (np.tril(off, -1) if lower else np.triu(off, 1)) * 0.25 + np.diag(dg)
+            tree = {"k": "tri", "a": gen.enc(T.astype(gen.NPDT[dt])), "lower": lower}
     dts = gen.ALLDT
     return {"mode": "tree", "tree": tree, "alg": alg, "trait": trait, "tol_exp": g.pick([-10, -8, -6]), "extra_iters": g.integer(0, 5),
             "b": g.operand(n, dtypes=dts), "bl": g.left_operand(n, dtypes=dts), "declare": g.boolean(),
